@@ -135,3 +135,27 @@ Proof.
   - right. apply (normalise_factor_zero _ _ _ Hz).
   - left. now apply normalise_factor_unit.
 Qed.
+
+(* ------------------------------------------------------------------ initialize_cp with a user CP tensor (weights w, possibly non-unit) *)
+(* the weights are pulled into one factor (the last one; the last UPDATED one in non_negative_parafac_hals with a fixed last mode) and
+   replaced by ones: the returned CP tensor has weights all ones and represents the same tensor *)
+Fixpoint absorb_at (k : nat) (w : nat -> R) (fs : list factor) : list factor :=
+  match fs, k with
+  | [], _ => []
+  | f :: t, O => (rows f, fun i r => ent f i r * w r) :: t
+  | f :: t, S k' => f :: absorb_at k' w t
+  end.
+Definition ones_w : nat -> R := fun _ => 1.
+Lemma term_absorb_at fs : forall k w idx r, (k < length fs)%nat -> in_bounds fs idx ->
+  term (absorb_at k w fs) idx r = w r * term fs idx r.
+Proof.
+  induction fs as [|f fs IH]; intros k w idx r Hk Hb; [simpl in Hk; lia|].
+  destruct idx as [|i idx]; [contradiction|]. destruct Hb as [_ Hb]. destruct k as [|k].
+  - cbn [absorb_at term ent snd]. ring.
+  - cbn [absorb_at term]. rewrite IH by (simpl in Hk; try lia; assumption). ring.
+Qed.
+Theorem init_user_weights_absorbed k w fs idx r : (k < length fs)%nat -> in_bounds fs idx ->
+  cp_entry_term ones_w (absorb_at k w fs) idx r = cp_entry_term w fs idx r.
+Proof. intros Hk Hb. unfold cp_entry_term, ones_w. rewrite term_absorb_at by assumption. ring. Qed.
+Theorem absorb_at_shapes k w fs : map rows (absorb_at k w fs) = map rows fs.
+Proof. revert k. induction fs as [|f fs IH]; intros k; [destruct k; reflexivity|]. destruct k; cbn [absorb_at map rows fst]; [reflexivity|]. now rewrite IH. Qed.
